@@ -407,6 +407,8 @@ def validate_rw(chk: Check, per_class: int, props: set[str], ms_timestamps: bool
     classes = project.all_entity_classes()
     n = len(classes)
     K = 16 if per_class <= 6 else 64      # thorough: smaller shards, the workers run under an address-space limit
+    if per_class > 6:
+        os.environ["KIO_VERIF_WORKER_GIB"] = "10"
     slices = [(i * n // K, (i + 1) * n // K) for i in range(K)]
     in_args = [(os.path.join(chk.scratch, f"rwin{i}.json"), slices[i], per_class, chk.seed + 3,
                 ms_timestamps) for i in range(K)]
